@@ -66,6 +66,9 @@ def apply_os(hist):
             r = s | OrderedSet(arg)
             if set(r) != set(m) | set(arg) or len(r) != len(set(m) | set(arg)):
                 return None, "| gave %r, model set %r" % (list(r), sorted(set(m) | set(arg)))
+            r.add(99)
+            if list(s) != m:
+                return None, "| result aliases its operand: operand now %r, model %r" % (list(s), m)
         elif op == "and":
             r = s & OrderedSet(arg)
             if set(r) != set(m) & set(arg) or len(r) != len(set(m) & set(arg)):
@@ -169,14 +172,17 @@ def apply_bv(hist):
         elif op == "iand":
             b &= mkbv(arg)
             m &= set(arg)
-        elif op == "or":
-            r = b | mkbv(arg)
-            if sorted(r) != sorted(m | set(arg)) or len(r) != len(m | set(arg)):
-                return None, "| gave %r, model %r" % (sorted(r), sorted(m | set(arg)))
-        elif op == "and":
-            r = b & mkbv(arg)
-            if sorted(r) != sorted(m & set(arg)) or len(r) != len(m & set(arg)):
-                return None, "& gave %r, model %r" % (sorted(r), sorted(m & set(arg)))
+        elif op in ("or", "and"):
+            other = mkbv(arg)
+            r = (b | other) if op == "or" else (b & other)
+            exp = (m | set(arg)) if op == "or" else (m & set(arg))
+            if sorted(r) != sorted(exp) or len(r) != len(exp):
+                return None, "%s gave %r, model %r" % ("|" if op == "or" else "&", sorted(r), sorted(exp))
+            # the result is a set of its own: changing it must not change an operand (and vice versa)
+            r.add(200)
+            if sorted(b) != sorted(m) or sorted(other) != sorted(set(arg)):
+                return None, "%s result aliases an operand: after adding 200 to the result the operands are %r / %r" % (
+                    "|" if op == "or" else "&", sorted(b), sorted(other))
         if (
             sorted(b) != sorted(m)
             or len(b) != len(m)
